@@ -300,11 +300,15 @@ impl TransformExtensionList {
                 current_tkey = Some(parse_tkey(subtag)?);
                 iter.next();
             } else if current_tkey.is_some() {
+                if slen == 1 {
+                    // A singleton ends the tfields and starts the next extension.
+                    break;
+                }
                 if let Some(tval) = parse_tvalue(subtag)? {
                     current_tvalue.push(tval);
                 }
                 iter.next();
-            } else if is_language_subtag(subtag) {
+            } else if text.tlang.is_none() && is_language_subtag(subtag) {
                 text.tlang = Some(
                     LanguageIdentifier::try_from_iter(iter, true)
                         .map_err(|_| ParserError::InvalidLanguage)?,
